@@ -3693,7 +3693,7 @@ class RockRidgeContinuationBlock:
         bisect.insort_left(self._entries, RockRidgeContinuationEntry(offset, length))
 
     def add_entry(self, length):
-        # type: (int) -> int
+        # type: (int) -> Optional[int]
         """
         Add a new entry to this Rock Ridge Continuation Block.  This method
         attempts to find a gap that fits the new length anywhere within this
@@ -3734,9 +3734,12 @@ class RockRidgeContinuationBlock:
                 if self._max_block_size >= length:
                     offset = 0
 
-        if offset >= 0:
-            bisect.insort_left(self._entries,
-                               RockRidgeContinuationEntry(offset, length))
+        if offset < 0:
+            # No gap in this block is large enough.
+            return None
+
+        bisect.insort_left(self._entries,
+                           RockRidgeContinuationEntry(offset, length))
 
         return offset
 
